@@ -47,6 +47,10 @@ impl DataFragSubmessage {
             let reader_id = EntityId::try_read_from_bytes(&mut slice, endianness)?;
             let writer_id = EntityId::try_read_from_bytes(&mut slice, endianness)?;
             let writer_sn = SequenceNumber::try_read_from_bytes(&mut slice, endianness)?;
+            // Validity of the DataFrag submessage (RTPS 8.3.7.3.3)
+            if writer_sn <= 0 {
+                return Err(RtpsMessageError::InvalidData);
+            }
             let fragment_starting_num =
                 FragmentNumber::try_read_from_bytes(&mut slice, endianness)?;
             let fragments_in_submessage = u16::try_read_from_bytes(&mut slice, endianness)?;
